@@ -53,17 +53,21 @@ let parse_tree (s : string) : el =
   if !pos <> len then failwith "tree: trailing text";
   t
 
-(* query = <1|A>:<r.i.j>:<hex path>[:<hex attr name>:<hex attr value>] *)
+(* query = <1|A>:<r.i.j>:<hex path>[:<hex atag | ~>:<hex aval | ~>[:<hex delimiter>]] *)
 let parse_query (q : string) : query =
   let f = split_on ':' q in
   let addr a =
     match split_on '.' a with
     | "r" :: rest -> List.map (fun x -> nat_of_int (int_of_string x)) rest
     | _ -> failwith "query: address" in
+  let opt x = if x = "~" then None else Some (nl_of_hexstr x) in
+  let mk m a p k v d =
+    { q_first = (m = "1"); q_start = addr a; q_path = nl_of_hexstr p; q_delim = d; q_attr = (k, v) } in
   match f with
-  | [m; a; p] -> { q_first = (m = "1"); q_start = addr a; q_path = nl_of_hexstr p; q_attr = None }
-  | [m; a; p; k; v] ->
-    { q_first = (m = "1"); q_start = addr a; q_path = nl_of_hexstr p; q_attr = Some (nl_of_hexstr k, nl_of_hexstr v) }
+  | [m; a; p] -> mk m a p None None (n_of_int 47)
+  | [m; a; p; k; v] -> mk m a p (opt k) (opt v) (n_of_int 47)
+  | [m; a; p; k; v; d] ->
+    (match nl_of_hexstr d with [dc] -> mk m a p (opt k) (opt v) dc | _ -> failwith "query: delimiter")
   | _ -> failwith "query: fields"
 
 let () = run_protocol (fun case impl ->
